@@ -26,10 +26,13 @@ LEAN_MODULE = "Optyx.Props.C03"
 THEOREMS = [
     "Optyx.Props.C03.jacRow_sound",
     "Optyx.Props.C03.jacRow_length",
+    "Optyx.Props.C03.unaryTables_agree",
     "Optyx.Props.C03.computeJacobian_entries",
     "Optyx.Props.C03.compileJacobian_entries",
     "Optyx.Props.C03.compileJacobian_constant_no_param",
     "Optyx.Props.C03.compileGradient_entries",
+    "Optyx.Props.C03.compileJacobian_true_partial",
+    "Optyx.Props.C03.compileGradient_true_partial",
 ]
 ASSUMPTIONS = [
     "entries are compared with Py.grad (the C02 theorem turns them into true partial derivatives at regular points)",
@@ -276,6 +279,11 @@ def cell_cases(rng):
         for wn, wf in (wr[1], wr[4], wr[5], wr[10]):
             vt, V = alt[rng.randrange(len(alt))]
             cases.append((f"{vt}|{wn}", [wf(node)], V, U))
+    # degenerate shapes: no expressions / no variables (structural + path comparison only)
+    cases.append(("edge:m0|own|id", [], [U.x[0], U.x[1]], U))
+    cases.append(("edge:n0|own|id", [U.x.sum()], [], U))
+    cases.append(("edge:n0ps|own|id", [nodes[4][1]], [], U))
+    cases.append(("edge:m0n0|own|id", [], [], U))
     # multi-row lists
     for _ in range(60):
         k = rng.randint(2, 4)
@@ -368,7 +376,7 @@ def check_numeric(es, V, xs):
     """property oracle on the real code at one point. returns (failures, n_entries_checked, n_skipped_rows)"""
     fails, checked, skipped = [], 0, 0
     covered = names_of(es) <= {v.name for v in V}
-    if not covered or len({v.name for v in V}) != len(V):
+    if not covered or len({v.name for v in V}) != len(V) or not es or not V:
         return fails, checked, skipped
     want = oracle_rows(es, V, xs)
     x = np.array(xs, dtype=float)
@@ -433,7 +441,7 @@ def run(ctx) -> core.Report:
                            "a variable missing} × slices (overlapping, stepped, reversed, matrix rows/columns, symmetric) × "
                            "BinaryOp wrappers; multi-row lists; seeded random expression lists.  non-trivial = distinct "
                            "(expressions, V) whose Jacobian is not identically the constant 0")
-    cases = cell_cases(rng) + random_cases(rng, 6000 if thorough else 700, 5 if thorough else 3)
+    cases = cell_cases(rng) + random_cases(rng, 20000 if thorough else 700, 5 if thorough else 3)
 
     lines, metas = [], []
     for tag, es, V, U in cases:
